@@ -448,9 +448,56 @@ func drawItem(rt *rapid.T) opItem {
 		return it
 	case k < 95:
 		return opItem{Kind: "runestr", T: "int32", A: drawInt(rt, intType("int32"), "a")}
-	default:
+	case k < 98:
 		return drawUntyped(rt)
+	default:
+		return drawUntypedFloat(rt)
 	}
+}
+
+// ---------- untyped floating-point constant expressions. Go evaluates them
+// exactly (arbitrary precision) and rounds once when the constant is converted
+// to float64/float32; the expected value is computed with math/big.Rat.
+
+func drawUntypedFloat(rt *rapid.T) opItem {
+	lits := []string{"0.1", "0.2", "0.3", "1.5", "2.0", "3.0", "7.0", "10.0", "0.25", "1e3", "1e-3", "2.5e2", "9.75", "1.1", "3", "4", "10", "7", "100", "0.7"}
+	var gen func(depth int) (string, *big.Rat, bool)
+	gen = func(depth int) (string, *big.Rat, bool) {
+		if depth <= 0 || rapid.IntRange(0, 3).Draw(rt, "leaf") == 0 {
+			l := rapid.SampledFrom(lits).Draw(rt, "flit")
+			r, ok := new(big.Rat).SetString(l)
+			if !ok {
+				panic("bad literal " + l)
+			}
+			return l, r, !strings.ContainsAny(l, ".e")
+		}
+		op := rapid.SampledFrom([]string{"+", "-", "*", "/", "/"}).Draw(rt, "fop")
+		ls, lv, li := gen(depth - 1)
+		rs, rv, ri := gen(depth - 1)
+		res := new(big.Rat)
+		switch op {
+		case "+":
+			res.Add(lv, rv)
+		case "-":
+			res.Sub(lv, rv)
+		case "*":
+			res.Mul(lv, rv)
+		case "/":
+			if rv.Sign() == 0 {
+				return ls, lv, li
+			}
+			if li && ri {
+				// both operands untyped integer constants: truncated integer division
+				q := new(big.Int).Quo(new(big.Int).Quo(lv.Num(), lv.Denom()), new(big.Int).Quo(rv.Num(), rv.Denom()))
+				return "(" + ls + " / " + rs + ")", new(big.Rat).SetInt(q), true
+			}
+			res.Quo(lv, rv)
+		}
+		return "(" + ls + " " + op + " " + rs + ")", res, li && ri
+	}
+	s, v, _ := gen(3)
+	t := rapid.SampledFrom([]string{"float64", "float64", "float32"}).Draw(rt, "ft")
+	return opItem{Kind: "ufloat", T: t, A: s, B: v.String()}
 }
 
 // ---------- untyped constant expressions (arbitrary precision in both languages)
@@ -1036,6 +1083,24 @@ func (it opItem) build(id int) (want string, fr Frag, boundary bool) {
 		fr.Decl = fmt.Sprintf("func %s(a int32) string { return string(rune(a)) }\n", fn)
 		fr.Body = fmt.Sprintf("\temit(hexs(%s(%s)))", fn, t.lit(it.A))
 		fr.Cats = []string{"runestr"}
+	case "ufloat":
+		boundary = true
+		r, ok := new(big.Rat).SetString(it.B)
+		if !ok {
+			panic("bad rational " + it.B)
+		}
+		if it.T == "float32" {
+			f, _ := r.Float32()
+			want = fmtF32(f) + "\n"
+			fr.Decl = fmt.Sprintf("const k%s = %s\n\nvar v%s float32 = k%s\n", fn, it.A, fn, fn)
+			fr.Body = fmt.Sprintf("\temit(f32bits(v%s))", fn)
+		} else {
+			f, _ := r.Float64()
+			want = fmtF64(f) + "\n"
+			fr.Decl = fmt.Sprintf("const k%s = %s\n\nvar v%s float64 = k%s\n", fn, it.A, fn, fn)
+			fr.Body = fmt.Sprintf("\temit(fbits(v%s))", fn)
+		}
+		fr.Cats = []string{"untyped-float-const"}
 	case "untyped":
 		boundary = true
 		want = it.B + "\n"
@@ -1098,7 +1163,7 @@ func opExec(ctx *vk.Ctx, c opCase) error {
 func TestC04_Operators(t *testing.T) {
 	vk.Run(t, vk.Spec[opCase]{
 		ID: "C04", Name: "TestC04_Operators",
-		Rule: "rapid: 1..16 operator items per program: integer + - * / % & | ^ &^, comparisons, shifts (count of any integer type: 0, width-1, width, large, negative), unary - ^, conversions between all 10 integer types, int<->float, float32/64 arithmetic, comparisons and literals, string concat/compare/len/index/slice/range/[]byte/[]rune/string(rune), untyped big constants; operands from boundary sets (0, ±1, min, max, 2^k±1) mixed with random; evaluated through parameters, through parameters narrowed from int64 words with complemented high bits, compound assignment, literal right operand, or as a constant expression when Go accepts it; expected values computed by the harness's own Go code; non-trivial = at least one item has a boundary operand; distinct by case hash",
+		Rule: "rapid: 1..16 operator items per program: integer + - * / % & | ^ &^, comparisons, shifts (count of any integer type: 0, width-1, width, large, negative), unary - ^, conversions between all 10 integer types, int<->float, float32/64 arithmetic, comparisons and literals, string concat/compare/len/index/slice/range/[]byte/[]rune/string(rune), untyped big integer constants and untyped floating-point constant expressions (exact evaluation, one rounding); operands from boundary sets (0, ±1, min, max, 2^k±1) mixed with random; evaluated through parameters, through parameters narrowed from int64 words with complemented high bits, compound assignment, literal right operand, or as a constant expression when Go accepts it; expected values computed by the harness's own Go code; non-trivial = at least one item has a boundary operand; distinct by case hash",
 		Draw: func(rt *rapid.T) opCase {
 			n := rapid.IntRange(1, 16).Draw(rt, "n")
 			c := opCase{}
